@@ -13,7 +13,9 @@ LEVEL_TEXT = ("Clause-level static rules: the backward transformer overwrites (b
               "for assertions it joins the negated condition when propagating error states and assumes the condition for good "
               "states; per-statement forward invariants are recorded BEFORE the statement is executed and statements are walked "
               "in reverse; generic backward arithmetic only inverts operations that are invertible over the instantiation's number "
-              "type and always meets with the forward invariant; the reversed CFG views mirror every accessor. Numeric soundness of "
+              "type and always meets with the forward invariant; the reversed CFG views mirror every accessor; casts with a Boolean operand "
+              "forget the destination (r12); assertions are discharged with dominance relative to the forward entry (r13); a re-run starts "
+              "from cleared tables (r14); backward array stores handle every overwritten cell (r15). Numeric soundness of "
               "each domain's own backward_* operations is NOT decided; region/reference statements have no backward semantics in "
               "the API (documented) and are exempt.")
 ASSUMPTIONS = ["forward invariants supplied to the backward analysis are sound (C01)",
